@@ -111,8 +111,9 @@ Definition records_step (o : op) (r : op_result) (rs rs' : list rec) : Prop :=
   | _, _ => rs' = rs
   end.
 
-Lemma step_inv s o rs : Inv s -> small s -> reads s rs ->
+Lemma step_inv_r s o rs : Inv s -> small s -> reads s rs ->
   let '(r, s') := step s o in
+  (limit_of (w_bs s') = limit_of (w_bs s) \/ limit_of (w_bs s') mod 32 = 0) /\
   Inv s' /\ ok_result o r /\ limit_of (w_bs s) <= limit_of (w_bs s') /\ len (w_bs s) <= len (w_bs s') /\
   tail4_same (w_bs s) (w_bs s') /\
   exists rs', reads s' rs' /\ records_step o r rs rs'.
@@ -128,7 +129,7 @@ Proof.
     destruct (N.eqb_spec (len name) 0) as [Hemp|Hv].
     { unfold new_counter. destruct (N.eqb_spec (len name) 0) as [_|X]; [|contradiction]. cbn [nc_to_op].
       destruct s as [sm sh sb]; cbn [w_meta w_hdr w_bs] in *.
-      split; [exact HI|]. split; [reflexivity|]. split; [lia|]. split; [lia|].
+      split; [left; reflexivity|]. split; [exact HI|]. split; [reflexivity|]. split; [lia|]. split; [lia|].
       split; [intros i _ _; reflexivity|].
       exists (concat tbl). split; [exact Hr|reflexivity]. }
     destruct (N.ltb_spec 4096 (len name)) as [Hlong|Hlen].
@@ -136,7 +137,7 @@ Proof.
       destruct (N.eqb_spec (len name) 0) as [X|_]; [contradiction|].
       destruct (N.ltb_spec 4096 (len name)) as [_|X]; [|lia]. cbn [nc_to_op].
       destruct s as [sm sh sb]; cbn [w_meta w_hdr w_bs] in *.
-      split; [exact HI|]. split; [reflexivity|]. split; [lia|]. split; [lia|].
+      split; [left; reflexivity|]. split; [exact HI|]. split; [reflexivity|]. split; [lia|]. split; [lia|].
       split; [intros i _ _; reflexivity|].
       exists (concat tbl). split; [exact Hr|reflexivity].
     + pose proof (new_counter_wf (w_meta s) (w_hdr s) (w_bs s) m kv limit tbl name Hread Hh Ht Hs
@@ -147,9 +148,10 @@ Proof.
       assert (HI' : Inv {| w_meta := w_meta s; w_hdr := w_hdr s; w_bs := bs' |}).
       { constructor; cbn [w_meta w_hdr w_bs]; [exists m, kv, limit', tbl'; exact R'|exact Hh'|exact Ht']. }
       pose proof (Inv_limit _ HI') as [EL' _]. cbn [w_bs w_hdr] in EL'.
-      split; [exact HI'|]. split; [exists off; reflexivity|]. cbn [w_bs].
       pose proof (spec_read_inv _ _ _ _ _ _ R') as (_ & _ & El' & _).
-      split; [rewrite ELs, EL', <- El, <- El'; exact Hl|]. split; [exact Hlen1|]. split; [exact Ht4|].
+      split; [cbn [w_bs]; rewrite ELs, EL', <- El, <- El'; destruct Hl as [_ [->|X]]; [left; reflexivity|right; exact X]|].
+      split; [exact HI'|]. split; [exists off; reflexivity|]. cbn [w_bs].
+      split; [rewrite ELs, EL', <- El, <- El'; exact (proj1 Hl)|]. split; [exact Hlen1|]. split; [exact Ht4|].
       exists (concat tbl'). split; [exists m, kv, limit', tbl'; now split|].
       exists rcd. repeat split; try assumption.
       destruct Hcase as [(_ & -> & _)|(V0 & HA & Hf)]; [now left|right; repeat split; assumption].
@@ -157,7 +159,7 @@ Proof.
     destruct (N.eqb_spec (len name) 0) as [Hemp|Hv].
     { unfold new_counter. destruct (N.eqb_spec (len name) 0) as [_|X]; [|contradiction]. cbn [nc_to_op].
       destruct s as [sm sh sb]; cbn [w_meta w_hdr w_bs] in *.
-      split; [exact HI|]. split; [reflexivity|]. split; [lia|]. split; [lia|].
+      split; [left; reflexivity|]. split; [exact HI|]. split; [reflexivity|]. split; [lia|]. split; [lia|].
       split; [intros i _ _; reflexivity|].
       exists (concat tbl). split; [exact Hr|reflexivity]. }
     destruct (N.ltb_spec 4096 (len name)) as [Hlong|Hlen].
@@ -165,7 +167,7 @@ Proof.
       destruct (N.eqb_spec (len name) 0) as [X|_]; [contradiction|].
       destruct (N.ltb_spec 4096 (len name)) as [_|X]; [|lia]. cbn [nc_to_op].
       destruct s as [sm sh sb]; cbn [w_meta w_hdr w_bs] in *.
-      split; [exact HI|]. split; [reflexivity|]. split; [lia|]. split; [lia|].
+      split; [left; reflexivity|]. split; [exact HI|]. split; [reflexivity|]. split; [lia|]. split; [lia|].
       split; [intros i _ _; reflexivity|].
       exists (concat tbl). split; [exact Hr|reflexivity].
     + pose proof (new_counter_wf (w_meta s) (w_hdr s) (w_bs s) m kv limit tbl name Hread Hh Ht Hs
@@ -178,9 +180,10 @@ Proof.
       assert (HI' : Inv {| w_meta := w_meta s; w_hdr := w_hdr s; w_bs := add_at bs' (r_off rcd) delta |}).
       { constructor; cbn [w_meta w_hdr w_bs]; [eexists m, kv, limit', _; exact A1|exact A2|exact A3]. }
       pose proof (Inv_limit _ HI') as [EL' _]. cbn [w_bs w_hdr] in EL'.
-      split; [exact HI'|]. split; [eexists; reflexivity|]. cbn [w_bs].
       pose proof (spec_read_inv _ _ _ _ _ _ A1) as (_ & _ & El' & _).
-      split; [rewrite ELs, EL', <- El, <- El'; exact Hl|]. split; [rewrite A4; exact Hlen1|].
+      split; [cbn [w_bs]; rewrite ELs, EL', <- El, <- El'; destruct Hl as [_ [->|X]]; [left; reflexivity|right; exact X]|].
+      split; [exact HI'|]. split; [eexists; reflexivity|]. cbn [w_bs].
+      split; [rewrite ELs, EL', <- El, <- El'; exact (proj1 Hl)|]. split; [rewrite A4; exact Hlen1|].
       split; [intros i Hi1 Hi2; rewrite (A5 i Hi1 Hi2); now apply Ht4|].
       eexists. split; [eexists m, kv, limit', _; split; [exact A1|reflexivity]|].
       exists rcd, (concat tbl'). repeat split; try assumption.
@@ -196,6 +199,7 @@ Proof.
     { constructor; cbn [w_meta w_hdr w_bs]; [exists m, kv, limit, tbl; exact G|
         now apply handle_ok_app|now apply tail_zero_app]. }
     pose proof (Inv_limit _ HI') as [EL' _]. cbn [w_bs w_hdr] in EL'.
+    split; [left; cbn [w_bs]; rewrite ELs, EL'; symmetry; apply get32_agree; apply agree_app_zeros|].
     split; [exact HI'|]. split; [reflexivity|]. cbn [w_bs].
     split.
     { rewrite ELs, EL'. rewrite (get32_agree (w_bs s) (w_bs s ++ zeros k)) by apply agree_app_zeros. lia. }
@@ -204,12 +208,12 @@ Proof.
   - (* OpReopen *)
     destruct (mapped_header meta') as [h'|] eqn:Hm'.
     2:{ unfold open_mapped. rewrite Hm'.
-        split; [exact HI|]. split; [now right|]. split; [lia|]. split; [lia|].
+        split; [left; reflexivity|]. split; [exact HI|]. split; [now right|]. split; [lia|]. split; [lia|].
         split; [intros i _ _; reflexivity|].
         exists (concat tbl). split; [exact Hr|reflexivity]. }
     rewrite (open_mapped_big _ _ _ Hm') by exact H2.
     destruct (has_prefix (w_bs s) h') eqn:Hp'.
-    2:{ split; [exact HI|]. split; [now right|]. split; [lia|]. split; [lia|].
+    2:{ split; [left; reflexivity|]. split; [exact HI|]. split; [now right|]. split; [lia|]. split; [lia|].
         split; [intros i _ _; reflexivity|].
         exists (concat tbl). split; [exact Hr|reflexivity]. }
     pose proof (prefix_len_field _ _ _ Hm' Hp') as E28.
@@ -218,9 +222,28 @@ Proof.
     assert (HI' : Inv {| w_meta := meta'; w_hdr := len h'; w_bs := w_bs s |}).
     { constructor; cbn [w_meta w_hdr w_bs]; rewrite ?Ehdr; [exists m, kv, limit, tbl; exact Hread| |exact Ht].
       exists h'. repeat split; [assumption|assumption|now symmetry]. }
-    split; [exact HI'|]. split; [now left|]. cbn [w_bs]. split; [lia|]. split; [lia|].
+    split; [left; reflexivity|]. split; [exact HI'|]. split; [now left|]. cbn [w_bs]. split; [lia|]. split; [lia|].
     split; [intros i _ _; reflexivity|].
     exists (concat tbl). split; [|reflexivity]. rewrite Ehdr. exists m, kv, limit, tbl. now split.
+Qed.
+
+Lemma step_inv s o rs : Inv s -> small s -> reads s rs ->
+  let '(r, s') := step s o in
+  Inv s' /\ ok_result o r /\ limit_of (w_bs s) <= limit_of (w_bs s') /\ len (w_bs s) <= len (w_bs s') /\
+  tail4_same (w_bs s) (w_bs s') /\
+  exists rs', reads s' rs' /\ records_step o r rs rs'.
+Proof.
+  intros HI Hs Hr. pose proof (step_inv_r s o rs HI Hs Hr) as P.
+  destruct (step s o) as [r s']. exact (proj2 P).
+Qed.
+
+(* the writer only ever stores a multiple of 32 as the limit *)
+Lemma step_rounded s o : Inv s -> small s -> limit_of (w_bs s) mod 32 = 0 ->
+  limit_of (w_bs (snd (step s o))) mod 32 = 0.
+Proof.
+  intros HI Hs H0. destruct (Inv_reads _ HI) as [rs Hr].
+  pose proof (step_inv_r s o rs HI Hs Hr) as P. destruct (step s o) as [r s']. cbn [snd].
+  destruct P as [[->|X] _]; assumption.
 Qed.
 
 (* ---------------------------------------------------------------- sequences *)
@@ -271,6 +294,59 @@ Proof.
   intros Hm Hc Hs n. apply Inv_wf. apply run_ops_inv.
   - eapply create_inv; eassumption.
   - now apply all_small_firstn.
+Qed.
+
+(* the WRITER keeps the limit a multiple of 32 (the format does not ask for it:
+   wf_file accepts any limit at or after the end of the last record) *)
+Lemma run_ops_rounded ops : forall s, Inv s -> all_small s ops -> limit_of (w_bs s) mod 32 = 0 ->
+  limit_of (w_bs (snd (run_ops s ops))) mod 32 = 0.
+Proof.
+  induction ops as [|o t IH]; intros s HI Hs H0; [exact H0|].
+  rewrite run_ops_cons. cbn [snd]. destruct Hs as [Hs1 Hs2].
+  destruct (Inv_reads _ HI) as [rs Hr].
+  pose proof (step_inv s o rs HI Hs1 Hr) as P.
+  pose proof (step_rounded s o HI Hs1 H0) as Q.
+  destruct (step s o) as [r s1]. cbn [snd] in *.
+  destruct P as (HI1 & _). now apply IH.
+Qed.
+
+Lemma create_limit_zero meta s0 : create [] meta = Some s0 -> meta_ok meta -> limit_of (w_bs s0) = 0.
+Proof.
+  intros Hc Hm. pose proof (create_inv _ _ Hc Hm) as HI.
+  destruct Hm as (Hl & Hn & Hk).
+  destruct (mapped_header meta) as [h|] eqn:Hm.
+  2:{ unfold create, open_mapped in Hc. rewrite Hm in Hc. discriminate. }
+  rewrite (create_new _ _ Hm) in Hc.
+  assert (Es : s0 = {| w_meta := meta; w_hdr := len h; w_bs := h ++ zeros (16384 - len h) |}) by congruence.
+  subst s0. cbn [w_bs] in *.
+  destruct (meta_kv meta) as [kv|] eqn:Ek; [|contradiction].
+  pose proof (fresh_file_read _ _ _ Hm Hn Ek) as R.
+  pose proof (spec_read_inv _ _ _ _ _ _ R) as (Eh & _ & El & _).
+  unfold limit_of. rewrite Eh. change c_limitOff with 0. rewrite N.add_0_r. now rewrite <- El.
+Qed.
+
+Theorem writer_limit_rounded meta s0 ops : meta_ok meta -> create [] meta = Some s0 ->
+  all_small s0 ops ->
+  forall n, let bs := w_bs (snd (run_ops s0 (firstn n ops))) in
+    limit_of bs mod 32 = 0 /\
+    forall rs r, spec_records bs = Some rs -> In r rs -> r_end r <= limit_of bs.
+Proof.
+  intros Hm Hc Hs n. cbv zeta.
+  assert (HI : Inv (snd (run_ops s0 (firstn n ops)))).
+  { apply run_ops_inv; [eapply create_inv; eassumption|now apply all_small_firstn]. }
+  assert (H0 : limit_of (w_bs (snd (run_ops s0 (firstn n ops)))) mod 32 = 0).
+  { apply run_ops_rounded; [eapply create_inv; eassumption|now apply all_small_firstn|].
+    rewrite (create_limit_zero _ _ Hc Hm). reflexivity. }
+  split; [exact H0|]. intros rs r Hrs Hr.
+  set (s := snd (run_ops s0 (firstn n ops))) in *.
+  pose proof (Inv_limit _ HI) as [EL _].
+  destruct HI as [(m & kv & limit & tbl & Hread) _ _].
+  unfold spec_records in Hrs. rewrite Hread in Hrs. injection Hrs as <-.
+  pose proof (spec_read_inv _ _ _ _ _ _ Hread) as (_ & _ & El & _ & _ & H3 & _ & _ & Ht & _).
+  pose proof (wf_record_in _ _ _ _ _ Ht Hr) as [Hri _].
+  pose proof (rec_in_facts _ _ _ _ Hri H3) as (F1 & _ & _ & F4 & _).
+  rewrite EL, <- El in *. unfold r_end, rec_size.
+  set (a := r_off r) in *. set (b := len (r_name r)) in *. clearbody a b. divlia.
 Qed.
 
 (* limit_monotone and limit_le_size, for every step of every sequence *)
